@@ -12,7 +12,7 @@ and branching:
   point at it: removing it is covered by `HNet.subLevel_behaves_of_closed`);
 * `HNet.keepSet` — the positions the code keeps; `HNet.liveSet_sub_keepSet` — every live child is kept;
 * `HNet.keepSet_closed` — no link of the level leaves the kept set;
-* `HNet.keep_preserves` — the level the code keeps returns, between every two names it exposes, the coefficient of the level. -/
+* `HNet.keep_preserves` — the level the code keeps exposes the same names and returns the same coefficient between every two. -/
 
 open NetD Solve
 
@@ -77,16 +77,30 @@ section field
 variable [Field F] [DecidableEq F]
 
 /-- **the level the code keeps behaves as the level**: with the children `prune()` removes gone (all the way down they hold
-nothing with a pin), the level exposes names of the level and returns between every two of them the same coefficient -/
+nothing with a pin), the level exposes the same names and returns between every two of them the same coefficient -/
 theorem keep_preserves (s s' : List (St F) → Option (Nat × Nat)) (cs : List (HNet F))
     (links : List (PinRef × PinRef)) (exposed : List (String × PinRef)) (w : WFTree (.node cs links exposed))
     (c c' : CompD F) (hs : solveH s (.node cs links exposed) = .ok c)
     (hs' : solveH s' (subLevel cs links exposed (keepSet cs)) = .ok c') :
-    (∀ x ∈ c'.pins, x ∈ c.pins) ∧ ∀ x ∈ c'.pins, ∀ y ∈ c'.pins, c'.sem x y = c.sem x y := by
-  refine subLevel_behaves_of_closed s s' cs links exposed w c hs (keepSet cs) ?_ c' hs'
-  intro l hl _ _
-  cases w with
-  | node _ _ _ hch lev => exact keepSet_closed hch lev l hl
+    c'.pins = c.pins ∧ ∀ x ∈ c.pins, ∀ y ∈ c.pins, c'.sem x y = c.sem x y := by
+  have hch : ∀ h ∈ cs, WFTree h := by
+    cases w with
+    | node _ _ _ hch _ => exact hch
+  have lev : LevelOK (cs.map pinNames) links exposed := by
+    cases w with
+    | node _ _ _ _ lev => exact lev
+  have hb := subLevel_behaves_of_closed s s' cs links exposed w c hs (keepSet cs)
+    (fun l hl _ _ => keepSet_closed hch lev l hl) c' hs'
+  have hpins : c'.pins = c.pins := by
+    rw [solveH_pins s' _ c' hs', solveH_pins s _ c hs, pinNames_subLevel]
+    show _ = exposed.map (·.1)
+    congr 1
+    rw [List.filter_eq_self]
+    intro e he
+    exact List.contains_iff_mem.2 (liveSet_sub_keepSet hch _ (liveSet_exposed lev e he))
+  refine ⟨hpins, ?_⟩
+  intro x hx y hy
+  exact hb.2 x (hpins ▸ hx) y (hpins ▸ hy)
 
 end field
 
